@@ -29,7 +29,7 @@ INT_RANGE = {'USHORT': (0, 255), 'UNORM': (0, 65535), 'ULONG': (0, 2 ** 32 - 1),
 
 def shards(tier):
     s = [{'code': c} for c in ('USHORT', 'UNORM', 'ULONG', 'SSHORT', 'SNORM', 'SLONG', 'FSINGL', 'FDOUBL', 'IDENT',
-                               'ASCII', 'STATUS', 'OBNAME', 'OBJREF', 'WARM', 'COUNT')]
+                               'ASCII', 'STATUS', 'OBNAME', 'OBJREF', 'WARM', 'COUNT', 'LISTRANGE')]
     s += [{'code': 'UVARI', 'part': p} for p in range(4)]
     s += [{'code': 'DTIME', 'tz': tz, 'year': y} for tz in ('UTC', 'XXX-5:30') for y in (1899, 1900, 1970, 2000, 2155, 2156)]
     return s
@@ -122,6 +122,16 @@ def cases(shard, tier):
                 if n > 300 and under != 'USHORT':
                     continue
                 yield {'code': 'COUNT', 'n': n, 'under': under}
+    elif c == 'LISTRANGE':
+        # value lists of an attribute with a fixed code: one element outside the code's domain, at either end of lists
+        # of several lengths (a list may be encoded by another route than a single value), and all-in-range edge lists
+        for under in ('SSHORT', 'SNORM', 'SLONG', 'USHORT', 'UNORM', 'ULONG', 'FSINGL'):
+            for n in (1, 2, 15, 16, 17, 128, 200):
+                for pos in ('first', 'last'):
+                    for which in ('above', 'below', 'edges-only'):
+                        if which == 'below' and under == 'FSINGL':
+                            continue
+                        yield {'code': 'LISTRANGE', 'under': under, 'n': n, 'pos': pos, 'which': which}
     elif c == 'WARM':
         groups = [('FDOUBL', [{'pat': 0}, {'pat': 0x8000000000000000}, {'v': 0}]),
                   ('FSINGL', [{'pat32': 0}, {'pat32': 0x80000000}]),
@@ -189,6 +199,50 @@ def run_case(case):
         if pos != len(b):
             return None, f"decoder consumed {pos} of {len(b)} emitted bytes"
         return v, None
+
+    if c == 'LISTRANGE':
+        from dliswriter import Attribute
+        under, n = case['under'], case['n']
+        if under == 'FSINGL':
+            lo, hi, bad_hi, bad_lo = -3.0e38, 3.0e38, 1e39, -1e39
+            fill = [0.5 * k for k in range(n)]
+        else:
+            lo, hi = INT_RANGE[under]
+            bad_hi, bad_lo = hi + 1, lo - 1
+            fill = [(lo + k) if k % 2 else (hi - k) for k in range(n)]
+        vals = list(fill)
+        k = 0 if case['pos'] == 'first' else n - 1
+        if case['which'] == 'above':
+            vals[k] = bad_hi
+        elif case['which'] == 'below':
+            vals[k] = bad_lo
+        else:
+            vals[k] = hi if under != 'FSINGL' else 3.0e38
+        a = Attribute('LABEL', multivalued=True, representation_code=RC(CODES[under]))
+        try:
+            a.value = vals
+            b = a.get_as_bytes()
+            err = None
+        except Exception as e:  # noqa
+            b, err = None, f"{type(e).__name__}: {e}"
+        if case['which'] != 'edges-only':
+            if err is None:
+                viol.append((f"C06:LISTRANGE:accepts-invalid:{under}", f"{n} {under} values with {vals[k]!r} at {case['pos']} "
+                                                                      f"position encoded as ...{b[-12:].hex()}"))
+            return Outcome('rejected', viol, True, digest=str(err)[:20])
+        if err is not None:
+            viol.append((f"C06:LISTRANGE:rejects-valid:{under}", f"{n} in-range {under} values: {err}"))
+            return Outcome('raised', viol, True, digest=err[:20])
+        size = {'SSHORT': 1, 'USHORT': 1, 'SNORM': 2, 'UNORM': 2, 'SLONG': 4, 'ULONG': 4, 'FSINGL': 4}[under]
+        tail = b[-size * n:]
+        got = []
+        for j in range(n):
+            v, _, _ = R.decode_value(CODES[under], tail, j * size)
+            got.append(v)
+        want = vals if under != 'FSINGL' else [struct.unpack('>f', struct.pack('>f', x))[0] for x in vals]
+        if got != want:
+            viol.append((f"C06:LISTRANGE:wrong-bytes:{under}", f"{n} {under} values decode to {got[:4]}... instead of {want[:4]}..."))
+        return Outcome('ok:list', viol, True, digest=sha(b))
 
     if c == 'COUNT':
         from dliswriter import Attribute
